@@ -3,6 +3,7 @@ import PRV.Driver.C01
 import PRV.Driver.C05
 import PRV.Driver.C14
 import PRV.Driver.C15
+import PRV.Driver.C16
 import PRV.Driver.C10
 import PRV.Driver.C20
 import PRV.Driver.C11
@@ -28,6 +29,9 @@ def main (args : List String) : IO UInt32 := do
   | ["monitor", "c14"] => runMonitor C14.monitor; return 0
   | ["model", "c15"] => run C15.machine; return 0
   | ["spec", "c15"] => run C15.machine; return 0
+  | ["model", "c16"] => run C16.machine; return 0
+  | ["spec", "c16"] => run C16.machine; return 0
+  | ["monitor", "c16"] => runMonitor C16.monitor; return 0
   | ["model", "c19"] => run (C19.machine false); return 0
   | ["spec", "c19"] => run (C19.machine true); return 0
   | ["model", "c10"] => run C10.machine; return 0
